@@ -33,10 +33,18 @@ type HistoryStats struct {
 // RunHistory executes the history against a fresh world and the model, checking all model invariants after every
 // transaction. afterTx (optional) adds property-specific checks.
 func RunHistory(h History, afterTx func(w *World, m *Model, i int, tx TxSpec, out TxOutcome) error) (HistoryStats, error) {
+	return RunHistorySetup(h, nil, afterTx)
+}
+
+// RunHistorySetup is RunHistory with a hook that sees the freshly built stores before the first transaction.
+func RunHistorySetup(h History, setup func(w *World), afterTx func(w *World, m *Model, i int, tx TxSpec, out TxOutcome) error) (HistoryStats, error) {
 	var st HistoryStats
 	w, err := NewWorld(h.Cfg)
 	if err != nil {
 		return st, fmt.Errorf("building stores: %v", err)
+	}
+	if setup != nil {
+		setup(w)
 	}
 	defer func() { w.Close() }()
 	m := NewModel(h.Cfg)
